@@ -133,6 +133,59 @@ def negation_exact(ctx, cr):
                    sample={"operator_not": c1, "prefix_not": neg, "binary_gets_not": c1 != neg})
 
 
+def parameterized_call(ctx, cr):
+    """`not f(args)`: the call's status must be inverted like a named-rule reference"""
+    rule = "R-C03-negation-flows"
+    key = EVAL + "eval_parameterized_rule_call"
+    PN = "rules::exprs::ParameterizedNamedRuleClause"
+    if key not in cr.fns or PN not in cr.adts:
+        ctx.lost(rule, rule + ":eval_parameterized_rule_call", key)
+        return
+    neg = c02.field_sid(cr, "arg1*", PN, ["named_rule", "negation"])
+    if not neg:
+        ctx.lost(rule, rule + ":eval_parameterized_rule_call:field", "named_rule.negation")
+        return
+    f = cr.fns[key]
+
+    class H(S.StatusHooks):
+        def role_of(self, a, st, term, callee):
+            return "child" if callee.get("key") == EVAL + "eval_rule" else None
+
+        def watch(self, a, st, sid, val):
+            if sid == neg and val[0] == "bool":
+                return st.mon.set(neg=val[1])
+            return None
+    h = H(cr, track_records=False)
+    a = ai.AI(cr, h, max_states=400000)
+    try:
+        a.run(key, mon=Mon())
+    except ai.Undecided as e:
+        ctx.ob(rule, rule + ":eval_parameterized_rule_call", False, "undecided %s" % e, fn=f)
+        return
+    ctx.states += a.n_states
+    rows = {}
+    unread = 0
+    for v, mon, tr in h.results:
+        kind, s = S.ret_status(v)
+        ch = mon.get("child", frozenset())
+        if kind != "ok" or len(ch) != 1 or "Err" in ch:
+            continue
+        if mon.get("neg") is None:
+            unread += 1
+            continue
+        rows.setdefault((next(iter(ch)), mon.get("neg")), set()).add(s)
+    ctx.ob(rule, rule + ":eval_parameterized_rule_call:reads-negation", unread == 0 and bool(rows),
+           "the status of a parameterised rule call is returned without reading the clause's prefix negation (%d paths): `not f(args)` behaves like `f(args)`" % unread, fn=f)
+    for st_ in S.NAMES:
+        got = rows.get((st_, False), set())
+        ctx.ob(rule, "%s:eval_parameterized_rule_call:%s:not=False" % (rule, st_), got == {st_} or not rows, "without prefix the call returns the rule's status: %s" % sorted(got), fn=f)
+        got = rows.get((st_, True), set())
+        exp = "FAIL" if st_ == "PASS" else "PASS"
+        ctx.ob(rule, "%s:eval_parameterized_rule_call:%s:not=True" % (rule, st_), got == {exp} or not rows,
+               "`not f(args)` with f %s must be %s, got %s" % (st_, exp, sorted(got)), fn=f,
+               sample={"rule_status": st_, "prefix_not": True, "clause": sorted(got)} if st_ == "SKIP" else None)
+
+
 class ParserHooks(ai.Hooks):
     """recognises  opt(not) / preceded(.., opt(not))  parsers and the result of applying them"""
 
@@ -506,6 +559,7 @@ def run(ctx):
     cr = ctx.lib
     negation_flows(ctx, cr)
     negation_exact(ctx, cr)
+    parameterized_call(ctx, cr)
     parser_sets_negation(ctx, cr)
     closures(ctx, cr)
     comparator_flip(ctx, cr)
